@@ -42,6 +42,7 @@ type Ctx struct {
 	Rng     *rand.Rand
 	Mockery string // path of the mockery binary built from the snapshot
 	Tools   string // path of the tools binary
+	Sem     string // path of the verifsem helper
 	Work    string // scratch directory (removed by the caller)
 	Src     string // snapshot of the repository
 	Verif   string // /verif
@@ -81,6 +82,7 @@ func main() {
 		inputs  = flag.String("inputs", "", "file of JSON lines each holding {\"input\":…} to run before generated ones (corpus)")
 		mockery = flag.String("mockery", "", "mockery binary")
 		tools   = flag.String("tools", "", "tools binary")
+		sem     = flag.String("verifsem", "", "verifsem binary (semver parser of the tools module)")
 		work    = flag.String("work", "", "scratch dir")
 		src     = flag.String("src", "", "repository snapshot")
 		verif   = flag.String("verif", "/verif", "verif dir")
@@ -104,7 +106,7 @@ func main() {
 		fmt.Fprintf(os.Stderr, "unknown property %s (have %v)\n", name, names)
 		os.Exit(2)
 	}
-	ctx := &Ctx{Seed: *seed, Tier: *tier, Rng: rand.New(rand.NewSource(*seed)), Mockery: *mockery, Tools: *tools, Work: *work, Src: *src, Verif: *verif, N: *n}
+	ctx := &Ctx{Seed: *seed, Tier: *tier, Rng: rand.New(rand.NewSource(*seed)), Mockery: *mockery, Tools: *tools, Sem: *sem, Work: *work, Src: *src, Verif: *verif, N: *n}
 
 	var raws []json.RawMessage
 	readInputs := func(path string, multi bool) {
